@@ -7,7 +7,7 @@ T = {"A": 1, "NS": 2, "MD": 3, "MF": 4, "CNAME": 5, "SOA": 6, "MB": 7, "MG": 8, 
 NAME_TYPES = [2, 3, 4, 5, 7, 8, 9, 12]
 TYPED = [1, 2, 3, 4, 5, 6, 7, 8, 9, 10, 11, 12, 13, 14, 15, 16, 28]
 KNOWN_TYPES = TYPED + [41, 252, 253, 254, 255]
-KNOWN_CLASSES = [1, 2, 3, 4]
+KNOWN_CLASSES = [1, 2, 3, 4, 255]
 
 
 def be(v, n):
